@@ -74,6 +74,23 @@ func vh_CL() {
 		vCover("non-leader")
 		return
 	}
+	// C15.noop (progress): the largest current-term entry held by a majority of voters gets committed
+	nvAll := vRefVoters(r.configuration, ids)
+	selfV := 0
+	if _, ok := r.configuration.Members["n1"]; ok && r.configuration.IsVoter["n1"] {
+		selfV = 1
+	}
+	for i := pre.logLen - 1; i >= 1; i-- {
+		idx := pre.firstIndex + uint64(i)
+		cntI := selfV
+		for _, id := range ids[1:] {
+			if _, ok := r.configuration.Members[id]; ok && r.configuration.IsVoter[id] && r.followers[id].matchIndex >= idx {
+				cntI++
+			}
+		}
+		committable := vAnd(vAnd(idx > pre.commit, pre.terms[i] == pre.term), 2*cntI > nvAll)
+		vAssert(vImplies(committable, post.commit >= idx), "C15.majority-held-current-term-entry-gets-committed")
+	}
 	if post.commit == pre.commit {
 		vCover("no-advance")
 		return
